@@ -92,7 +92,8 @@ def vectors():
             pv = G.data_of_micheline(p, michelson_to_micheline(parameter))
             sv = G.data_of_micheline(s, michelson_to_micheline(storage))
             ev = G.data_of_micheline(s, michelson_to_micheline(expected))
-            out.append((fn, {'inputs': [(('pair', p, s), ('pair', pv, sv))], 'code': code}, ev))
+            env = dict(G.DEFAULT_ENV, balance=4000000000000, chain_id='NetXdQprcVkpaWU')   # the constants of test_opcodes.py
+            out.append((fn, {'inputs': [(('pair', p, s), ('pair', pv, sv))], 'code': code, 'env': env}, ev))
         except (Outside, G.Unrenderable):
             skipped += 1
         except Exception:  # noqa: BLE001  (vector text the pytezos parser rejects)
@@ -108,7 +109,7 @@ def run(ctx: lib.Ctx, imports: str, prelude: str, fuel: int) -> None:
     if not vecs:
         return
     cases = [(G.case_coq(c), f'(Done [VPair (VList []) (value_of_data {G.data_coq(ev)})])') for _, c, ev in vecs]
-    untyped = set(ctx.coq_mismatches('octez_tc', imports, 'tc_ok', 'Bool.eqb', 'instr * list (ty * data)', 'bool',
+    untyped = set(ctx.coq_mismatches('octez_tc', imports, 'tc_ok', 'Bool.eqb', 'env * (instr * list (ty * data))', 'bool',
                                      [(c, 'true') for c, _ in cases], prelude=prelude))
     ctx.extra['octez_vectors_rejected_by_fragment_typing'] = sorted({vecs[i][0] for i in untyped})
     vecs = [v for i, v in enumerate(vecs) if i not in untyped]
@@ -116,7 +117,7 @@ def run(ctx: lib.Ctx, imports: str, prelude: str, fuel: int) -> None:
     ctx.extra['octez_vectors_in_fragment'] = len(vecs)
     ctx.extra['octez_scripts_in_fragment'] = len({v[0] for v in vecs})
     bad = ctx.coq_mismatches('octez', imports, 'ref_run', 'outcome_eqb',
-                             'instr * list (ty * data)', 'outcome', cases, prelude=prelude)
+                             'env * (instr * list (ty * data))', 'outcome', cases, prelude=prelude)
     ctx.table('Octez opcode vectors (test_opcodes.py) inside the fragment vs RefSem.ref_eval + Typing.typecheck')
     if bad:
         i = bad[0]
